@@ -10,10 +10,13 @@ func TestZRenewalResult(t *testing.T) {
 	if renewalDone == nil {
 		t.Skip("not started in this shard")
 	}
-	select {
-	case o := <-renewalDone:
-		reportRenewal(t, o)
-	case <-time.After(120 * time.Second):
-		t.Skip("renewal scenario did not finish")
+	deadline := time.After(150 * time.Second)
+	for range renewalVias {
+		select {
+		case o := <-renewalDone:
+			reportRenewal(t, o)
+		case <-deadline:
+			t.Skip("renewal scenario did not finish")
+		}
 	}
 }
